@@ -442,10 +442,10 @@ func (g *mgen) build() any {
 		m["target"] = g.pick("btgtv", "prod", "dev")
 	}
 	if g.coin("bcf", 1, 3) {
-		m["cache_from"] = []any{"alpine:latest", "type=local,src=path/to/cache"}
+		m["cache_from"] = []any{"alpine:latest", "type=local,src=path/to/cache", "type=registry,ref=user/app:cache"}
 	}
 	if g.coin("bct", 1, 4) {
-		m["cache_to"] = []any{"user/app:cache"}
+		m["cache_to"] = []any{"user/app:cache", "type=local,dest=path/to/cache", "type=inline"}
 	}
 	if g.coin("beh", 1, 4) {
 		m["extra_hosts"] = map[string]any{"buildhost": []any{"10.1.1.1"}}
